@@ -1660,7 +1660,7 @@ def remove_stns_sinex(sinex, sites):
                     val = '{:21.14e}'.format(float(sub_vcv[str(i)].pop(0)))
                     line += ' ' + str(val)
                 out.write(line + '\n')
-        out.write(block_end)
+        out.write(f"{block_end}\n")
 
         # Write out the trailer line
         out.write('%ENDSNX\n')
@@ -1834,7 +1834,7 @@ def remove_velocity_sinex(sinex):
                         j += 1
                     out.write(" \n")
         # Write out end of block line, and delete large variables
-        out.write(block_end)
+        out.write(f"{block_end}\n")
         del solution_matrix_estimate
         del Q
 
@@ -1912,7 +1912,7 @@ def remove_matrixzeros_sinex(sinex):
             if numCol==5:
                 if col[2]=="0.00000000000000e+00" and col[3]=="0.00000000000000e+00" and col[4]=="0.00000000000000e+00":
                     continue
-            out.write(line)
+            out.write(f"{line}\n")
         del solution_matrix_estimate
 
         # Write out the trailer line
